@@ -151,6 +151,13 @@ class Mon:
                 if c.exc is not None:
                     return
                 th = to_numpy(c.args[0])
+                if key.endswith('exp') and th.size:
+                    # exp overflows the floating-point range beyond log(max): theta>88.7 (float32) / 709.7 (float64) cannot be represented,
+                    # that is the number format, not the chart (a seed sweep hit theta=89.45 in float32: my generator, not numqi)
+                    lim = 88.0 if in_eps(c.args[0]) > 1e-10 else 709.0
+                    if float(th.max()) > lim:
+                        ctx.inconclusive('to_positive_real_exp/theta-beyond-float-range')
+                        return
                 a = mon.common(key, c, th.shape, want_complex=False)
                 if a is None:
                     return
@@ -473,6 +480,11 @@ class Mon:
                 m = c.args[0]
                 key = f'forward/{cls}'
                 out = to_numpy(c.result)
+                if cls == 'PositiveReal' and m.method == 'exp':
+                    lim = 88.0 if real_dtype_eps(m) > 1e-10 else 709.0
+                    if float(to_numpy(m.theta).max()) > lim:  # beyond the floating-point range of exp: not judged (see to_positive_real_exp)
+                        ctx.inconclusive('forward/PositiveReal/theta-beyond-float-range')
+                        return
                 if not ctx.check(bool(np.all(np.isfinite(out))), f'{key}/not-finite', f'{cls}.forward(): NaN/Inf', {'cls': cls}):
                     return
                 with torch.no_grad():
